@@ -59,6 +59,21 @@ pub trait SchedHook {
     /// A sleep of `dur` was asked for (it is replaced by a `Point::Sleep` scheduling
     /// point; this only reports the duration).
     fn sleep_requested(&self, _dur: std::time::Duration) {}
+    /// Notification-faithful timed waits: when true, a waiter sleeps until the condition
+    /// variable is notified or `wait_timeout_fires` says so, instead of polling its
+    /// condition `timeout_budget` times.
+    fn faithful_waits(&self) -> bool {
+        false
+    }
+    /// A task goes to sleep in (true) / wakes up from (false) a faithful timed wait.
+    fn wait_parked(&self, _parked: bool) {}
+    /// Asked by a sleeping waiter after every scheduling point: does its timeout fire now?
+    fn wait_timeout_fires(&self) -> bool {
+        true
+    }
+    /// A faithful wait ended by timeout, found its condition satisfied, and nobody had
+    /// notified the condition variable since the waiter went to sleep.
+    fn lost_wakeup(&self) {}
 }
 
 thread_local! {
@@ -154,16 +169,20 @@ pub mod sync {
     }
 
     #[derive(Debug, Default)]
-    pub struct Condvar(std::sync::Condvar);
+    pub struct Condvar(std::sync::Condvar, std::sync::atomic::AtomicU64);
 
     impl Condvar {
         pub fn new() -> Self {
-            Self(std::sync::Condvar::new())
+            Self(std::sync::Condvar::new(), std::sync::atomic::AtomicU64::new(0))
         }
         pub fn notify_all(&self) {
             match hook() {
                 None => self.0.notify_all(),
-                Some(h) => h.yield_point(Point::Notify),
+                Some(h) => {
+                    // generation count: lets faithful waiters see that they were notified
+                    self.1.fetch_add(1, std::sync::atomic::Ordering::SeqCst);
+                    h.yield_point(Point::Notify);
+                }
             }
         }
         /// Returns the guard and whether the wait timed out.
@@ -191,6 +210,39 @@ pub mod sync {
                         Err(_) => Err(Poisoned),
                     }
                 }
+                Some(h) if h.faithful_waits() => loop {
+                    if !condition(&mut *guard) {
+                        return Ok((guard, false));
+                    }
+                    // released and asleep in one step, as with a real condition variable:
+                    // the generation is read while the lock is still held
+                    let g0 = self.1.load(std::sync::atomic::Ordering::SeqCst);
+                    let owner = guard.owner;
+                    drop(guard);
+                    h.wait_parked(true);
+                    let mut timed_out = false;
+                    loop {
+                        h.yield_point(Point::WaitYield);
+                        if self.1.load(std::sync::atomic::Ordering::SeqCst) != g0 {
+                            break;
+                        }
+                        if h.wait_timeout_fires() {
+                            timed_out = true;
+                            break;
+                        }
+                    }
+                    h.wait_parked(false);
+                    guard = owner.lock()?;
+                    if timed_out {
+                        if !condition(&mut *guard) {
+                            if self.1.load(std::sync::atomic::Ordering::SeqCst) == g0 {
+                                h.lost_wakeup();
+                            }
+                            return Ok((guard, false));
+                        }
+                        return Ok((guard, true));
+                    }
+                },
                 Some(h) => {
                     let mut budget = h.timeout_budget();
                     loop {
